@@ -50,10 +50,23 @@ class remove_carriage_return_after_token(structure.Rule):
     def _fix_violation(self, oViolation):
         lTokens = oViolation.get_tokens()
 
-        lTokens = utils.remove_carriage_returns_from_token_list(lTokens)
+        lTokens = remove_carriage_returns_before_first_comment(lTokens)
         lTokens = utils.remove_consecutive_whitespace_tokens(lTokens)
         if self.bInsertSpace:
             if not isinstance(lTokens[1], parser.whitespace):
                 rules_utils.insert_whitespace(lTokens, 1)
 
         oViolation.set_tokens(lTokens)
+
+
+def remove_carriage_returns_before_first_comment(lTokens):
+    """A line break that follows a comment ends that comment and must stay."""
+    lReturn = []
+    bCommentFound = False
+    for oToken in lTokens:
+        if isinstance(oToken, parser.comment):
+            bCommentFound = True
+        if isinstance(oToken, parser.carriage_return) and not bCommentFound:
+            continue
+        lReturn.append(oToken)
+    return lReturn
